@@ -185,3 +185,225 @@ class P(_pl.PipelineMixin, _BaseP):
             c["psm"] = rat(rng.choice([0.01, 0.05, 0.0011, 0.2]))
             return c
         return _BaseP.gen_case(self, rng, tier)
+
+
+# ---- writer-level cases: the value the quantification WRITERS obtain.  writers.finalize_output ->
+# ProteinGroupsWriter.append_quant_columns collects the non-MBR PEPs of the precursor records (post_err_probs, as
+# quant.*.add_precursor_quants builds them), calls fdr.calc_post_err_prob_cutoff and hands the result to
+# _retain_only_identified_precursors and to every column.append(results, cutoff).  Observed from outside with a spy
+# column and a wrapped filter; compared EXACTLY (rational of float(value), and whether the value is a double) with
+# PgFdr.C17.cutoff on those PEPs and with an independent Fraction recomputation.  Half of these cases draw the PEPs
+# from clusters that differ only beyond the 7th significant digit (not representable in single precision).
+_PipeP = P
+
+WRITER_BASES = [0.1, 0.2, 0.01, 0.003, 0.05, 0.0123456789, 0.3333333333333333, 0.007, 0.7]
+
+
+def _dyadic(v):
+    d = v.denominator
+    return d & (d - 1) == 0 and d <= 2**20
+
+
+def _writer_fin(case):
+    return sorted(unrat(pp) for pp, _ in case["rows"] if not isinstance(pp, str))
+
+
+def _writer_near_tie(case):
+    fin = _writer_fin(case)
+    level = unrat(case["level"])
+    exact_sums = all(_dyadic(v) for v in fin)
+    s = Fraction(0)
+    for k, v in enumerate(fin):
+        s += v
+        m = s / (k + 1)
+        if m != level and (m.numerator / m.denominator) == float(level):
+            return True
+        if not exact_sums and k >= 1 and abs(m - level) <= Fraction(1, 2**40) * max(abs(level), abs(m)):
+            return True  # the float running sums are rounded here: float scan and exact scan may differ
+    return False
+
+
+def _writer_kept(case, cutoff):
+    """ids of the precursor records that survive _retain_only_identified_precursors: those whose (peptide, charge)
+    has some record with PEP <= cutoff (match-between-runs records ride along)"""
+    ident = {pid for pp, pid in case["rows"] if not isinstance(pp, str) and unrat(pp) <= cutoff}
+    return [i for i, (pp, pid) in enumerate(case["rows"]) if pid in ident]
+
+
+def gen_writer_case(rng):
+    n = rng.choice([0, 1, 2, 3, 4, 5, 6, 8, 10])
+    close = rng.random() < 0.5
+    bases = rng.sample(WRITER_BASES, rng.choice([1, 2, 2, 3]))
+    grid = rng.choice([16, 64, 1024])
+    rows = []
+    for _ in range(n):
+        r = rng.random()
+        if r < 0.2:
+            pp = "nan"
+        elif r < 0.24:
+            pp = "inf"
+        elif close:
+            pp = rat(float(rng.choice(bases) + rng.choice([0, 0, 1, 1, 2, -1, 3]) * rng.choice([1e-10, 1e-10, 1e-9, 3e-12])))
+        else:
+            pp = rat(Fraction(rng.randint(0, grid), grid))
+        rows.append([pp, rng.randint(0, 5)])
+    fin = sorted(unrat(pp) for pp, _ in rows if not isinstance(pp, str))
+    means = [sum(fin[: k + 1], Fraction(0)) / (k + 1) for k in range(len(fin))]
+    r = rng.random()
+    if means and r < 0.6:
+        level = float(rng.choice(means)) + rng.choice([-1, 1]) * 2.0**-12
+    elif means and r < 0.7 and not close:
+        level = float(rng.choice(means))
+    else:
+        level = rng.choice([0.0, 0.001, 0.01, 0.05, 0.1, 0.25, 0.5])
+    return {"kind": "writer", "rows": rows, "level": rat(level)}
+
+
+def run_writer(case):
+    from picked_group_fdr import writers
+    from picked_group_fdr.precursor_quant import PrecursorQuant
+    from picked_group_fdr.results import ProteinGroupResult, ProteinGroupResults
+    from picked_group_fdr.writers import base as wbase
+
+    groups = [ProteinGroupResult(proteinIds="P%d" % k, majorityProteinIds="P%d" % k, numberOfProteins=1) for k in range(3)]
+    post_err_probs = []
+    for i, (pp, pid) in enumerate(case["rows"]):
+        pep = dec(pp)
+        peptide = "PEPTIDE%dK" % pid
+        groups[pid % 3].precursorQuants.append(PrecursorQuant(peptide, 2, "E1", -1, 1e6, pep, None, None, i))
+        post_err_probs.append((pep, "raw1", "E1", peptide))
+    results = ProteinGroupResults(groups)
+    results.experiments = ["E1"]
+    seen = []
+    kept = []
+
+    class SpyColumn:
+        def append(self, protein_group_results, post_err_prob_cutoff):
+            seen.append(post_err_prob_cutoff)
+            kept.extend(int(q.evidence_id) for pgr in protein_group_results for q in pgr.precursorQuants)
+
+    class SpyWriter(writers.ProteinGroupsWriter):
+        def get_columns(self):
+            return [SpyColumn()]
+
+    orig_retain = wbase._retain_only_identified_precursors
+
+    def spy_retain(precursor_list, post_err_prob_cutoff, *a, **kw):
+        seen.append(post_err_prob_cutoff)
+        return orig_retain(precursor_list, post_err_prob_cutoff, *a, **kw)
+
+    wbase._retain_only_identified_precursors = spy_retain
+    try:
+        writers.finalize_output(results, SpyWriter(), post_err_probs, "", dec(case["level"]), False, None)
+    finally:
+        wbase._retain_only_identified_precursors = orig_retain
+    if not seen:
+        return {"err": "column_not_called"}
+    vals = []
+    for v in seen:
+        r = rat(float(v))  # float(): `np.float32(x) == python_float` compares in single precision under NumPy 2
+        if r not in vals:
+            vals.append(r)
+    return {"cutoff": rat(float(seen[-1])), "seen": vals, "double": all(isinstance(v, float) for v in seen), "kept": sorted(kept)}
+
+
+class P(_PipeP):
+    writer_share = 0.08
+    rule = _PipeP.rule + (
+        "; 8 % of the cases run writers.finalize_output -> ProteinGroupsWriter.append_quant_columns on 0-10 precursor "
+        "records (PEPs dyadic or from clusters differing beyond the 7th significant digit, NaN = match-between-runs, inf) "
+        "with a spy column: the cutoff handed to the filter and the column, and the records kept"
+    )
+
+    @staticmethod
+    def _w(case):
+        return isinstance(case, dict) and case.get("kind") == "writer"
+
+    def gen_case(self, rng, tier):
+        if rng.random() < self.writer_share:
+            return gen_writer_case(rng)
+        return super().gen_case(rng, tier)
+
+    def run_impl(self, case):
+        return run_writer(case) if self._w(case) else super().run_impl(case)
+
+    def model_request(self, case, impl_out):
+        if not self._w(case):
+            return super().model_request(case, impl_out)
+        if _writer_near_tie(case):
+            return None
+        # append_quant_columns drops the match-between-runs (NaN) PEPs; everything else goes to the cutoff function
+        return {"op": "cutoff", "peps": [pp for pp, _ in case["rows"] if pp != "nan"], "level": case["level"]}
+
+    def model_view(self, case, resp, impl_out):
+        if not self._w(case):
+            return super().model_view(case, resp, impl_out)
+        if "cutoff" not in resp:
+            return resp
+        c = unrat(resp["cutoff"])
+        return {"cutoff": rat(c), "seen": [rat(c)], "double": True, "kept": _writer_kept(case, c)}
+
+    def impl_view(self, case, impl_out):
+        return impl_out if self._w(case) else super().impl_view(case, impl_out)
+
+    def oracle(self, case, impl_out):
+        if not self._w(case):
+            return super().oracle(case, impl_out)
+        if not isinstance(impl_out, dict) or "cutoff" not in impl_out:
+            return "the writer handed no cutoff to its columns: %r" % (impl_out,)
+        if _writer_near_tie(case):
+            return None
+        fin = _writer_fin(case)
+        level = unrat(case["level"])
+        want, s = Fraction(1), Fraction(0)
+        for k, v in enumerate(fin):
+            s += v
+            if s / (k + 1) > level:
+                want = v
+                break
+        for r in impl_out["seen"]:
+            got = unrat(r)
+            if got != 1 and got not in fin:
+                return "writer: the cutoff handed to the precursor filter / the column is %r, which is neither 1.0 nor one of the PEPs %s" % (
+                    float(got), [float(v) for v in fin])
+            if got != want:
+                return "writer: the cutoff handed to the precursor filter / the column is %r, but the first finite PEP (ascending) whose running mean exceeds %r is %r" % (
+                    float(got), float(level), float(want))
+            below = [v for v in fin if v < got]
+            if below and sum(below, Fraction(0)) / len(below) > level:
+                return "writer: the PEPs strictly below the cutoff %r have a mean above the level" % float(got)
+        if impl_out["kept"] != _writer_kept(case, want):
+            return "writer: precursor records kept for quantification %r, expected %r (cutoff %r)" % (
+                impl_out["kept"], _writer_kept(case, want), float(want))
+        return None
+
+    def nontrivial(self, case, impl_out):
+        if not self._w(case):
+            return super().nontrivial(case, impl_out)
+        return len(_writer_fin(case)) >= 2
+
+    def features(self, case, impl_out):
+        if not self._w(case):
+            return super().features(case, impl_out)
+        f = ["kind=writer"]
+        fin = _writer_fin(case)
+        f.append("n_finite=%s" % (len(fin) if len(fin) < 6 else "6+"))
+        if any(not _dyadic(v) for v in fin):
+            f.append("peps_beyond_float32")
+        if any(pp == "nan" for pp, _ in case["rows"]):
+            f.append("has_mbr")
+        if isinstance(impl_out, dict) and "cutoff" in impl_out:
+            f.append("cutoff=1" if impl_out["cutoff"] == ["1", "1"] else "cutoff=crossing")
+            if len(impl_out["kept"]) < len(case["rows"]):
+                f.append("record_dropped")
+        if _writer_near_tie(case):
+            f.append("near_tie_skipped")
+        return f
+
+    def shrink(self, case):
+        if not self._w(case):
+            yield from super().shrink(case)
+            return
+        rows = case["rows"]
+        for i in range(len(rows)):
+            yield dict(case, rows=rows[:i] + rows[i + 1 :])
